@@ -24,19 +24,19 @@ type GenType struct {
 }
 
 type GenProp struct {
-	Pkg  *packages.Package
-	Dir  string // property_<x>
+	Pkg   *packages.Package
+	Dir   string // property_<x>
 	Funcs map[string]*ast.FuncDecl
 }
 
 type Streams struct {
-	Pkgs    []*packages.Package
-	Fset    *token.FileSet
-	Root    *packages.Package // streams
-	Vocab   *packages.Package // streams/vocab
-	Types   []*GenType
-	Props   []*GenProp
-	Values  []*packages.Package
+	Pkgs     []*packages.Package
+	Fset     *token.FileSet
+	Root     *packages.Package // streams
+	Vocab    *packages.Package // streams/vocab
+	Types    []*GenType
+	Props    []*GenProp
+	Values   []*packages.Package
 	funcDecl map[*types.Func]*ast.FuncDecl
 	declPkg  map[*ast.FuncDecl]*packages.Package
 }
